@@ -143,9 +143,10 @@ type FProc struct {
 
 func (f *FProc) Alive() bool { return f.started && !f.exited }
 
+// envLookupFirst returns the effective value of key: exec uses the last duplicate.
 func envLookupFirst(env []string, key string) (string, bool) {
-	for _, kv := range env {
-		if strings.HasPrefix(kv, key+"=") {
+	for i := len(env) - 1; i >= 0; i-- {
+		if kv := env[i]; strings.HasPrefix(kv, key+"=") {
 			return kv[len(key)+1:], true
 		}
 	}
